@@ -34,7 +34,7 @@ class Element extends Node_ {
     super(type) // 'elem' | 'virt'
     this.name = name // tag name or virtual kind
     this.childNodes = []
-    this.slot = undefined
+    this._slot = undefined
     this.inheritSlots = false
     this.slotElement = undefined
     this.slotName = undefined // for <slot>
@@ -43,6 +43,10 @@ class Element extends Node_ {
     this.shadow = null
     this.slotNodes = undefined // for slot elements of dyn components
   }
+
+  //  stringifies what it is given (element.ts: )
+  get slot() { return this._slot }
+  set slot(x) { this._slot = String(x) }
 
   _reindex(from) {
     const c = this.childNodes
